@@ -109,6 +109,26 @@ Definition wf_cons (cons : consensus) (B : N) : Prop :=
   forall v P, cons v = Some P ->
     up_voteRounds P + up_maxwait P <= B /\ up_voteRounds P + up_defwait P <= B.
 
+(* a state in the middle of a vote, about to process round r: a proposal is pending under
+   parameters P, its deadline is not after its switch round, the switch round is still ahead,
+   and once the deadline has passed the threshold was reached *)
+Definition PendingOK (cons : consensus) (s : ustate) (r : N) (P : uparams) : Prop :=
+  us_next s <> [] /\ cons (us_current s) = Some P /\
+  us_voteBefore s <= us_switchOn s /\ r <= us_switchOn s /\ us_switchOn s < W /\
+  us_approvals s <= r /\
+  (us_voteBefore s < r -> up_threshold P <= us_approvals s).
+
+(* the switch at block k is the switch of the proposal that was already pending in [s] *)
+Definition concl_pending (r : N) (vs : list vote) (s : ustate) (bef : list ustate)
+           (k : nat) (sk' : ustate) (P : uparams) : Prop :=
+  r + N.of_nat k = us_switchOn s /\ us_current sk' = us_next s /\
+  up_threshold P <=
+    us_approvals s + count_approve (firstn (N.to_nat (us_voteBefore s - r)) vs) /\
+  (forall i si, (i <= k)%nat -> nth_error bef i = Some si ->
+     us_current si = us_current s /\ us_next si = us_next s /\
+     us_voteBefore si = us_voteBefore s /\ us_switchOn si = us_switchOn s).
+
+
 (* ---------- one-step rules checked on single-step observations from ARBITRARY states ----------
    (local, hold without any invariant): an accepted proposal found nothing pending; the
    protocol can only become the pending or the proposed one *)
